@@ -617,3 +617,39 @@ def deref(cfg: CFG, at: int, e: ast.AST, depth: int = 4) -> ast.AST:
         else:
             break
     return e
+
+
+def values_through_new_helper(model, fi: FuncInfo, v: ast.AST) -> List[ast.AST]:
+    """If `v` is a call to a function the reference tree does not have, every value that function can hand back (each `return`, conditional expressions split,
+    temporaries followed), rewritten over the caller's vocabulary; otherwise [v]."""
+    from . import report as _report
+    from .cfg import cfg_of
+    if not isinstance(v, ast.Call):
+        return [v]
+    callee = model.resolve_call(fi, v)
+    if callee is None or _report.CURRENT_DRIFT.get(callee.fq, 0) is not None or isinstance(callee.node, ast.Lambda):
+        return [v]
+    from .guards import return_cases
+    ccfg = cfg_of(callee)
+    out = []
+    from .model import walk_body
+    rets = [st for st in walk_body(callee) if isinstance(st, ast.Return)]
+    for st in rets:
+        vals = [st.value]
+        todo = []
+        while vals:
+            x = vals.pop()
+            if isinstance(x, ast.IfExp):
+                vals += [x.body, x.orelse]
+            else:
+                todo.append(x)
+        for x in todo:
+            if x is None:
+                out.append(ast.Constant(value=None))
+                continue
+            x = deref(ccfg, ccfg.node_for(st), x)
+            y = in_caller_terms(callee, v, x)
+            if y is None:
+                return [v]
+            out.append(y)
+    return out or [v]
